@@ -164,10 +164,15 @@ class Serializable(object):  # pylint: disable=too-few-public-methods
                 else:
                     human_readable_name = ' '.join(name.split('_')).title()
             else:
-                post_text_encoder = cls.post_text_encoder
+                post_text_encoder = vars(cls).get('post_text_encoder')
                 cls.post_text_encoder = SerializableTextEncoder()
-                _, human_readable_name = cls._markdown_result(name)
-                cls.post_text_encoder = post_text_encoder
+                try:
+                    _, human_readable_name = cls._markdown_result(name)
+                finally:
+                    if post_text_encoder is None:
+                        del cls.post_text_encoder
+                    else:
+                        cls.post_text_encoder = post_text_encoder
 
             name_dict[name] = human_readable_name
 
